@@ -47,10 +47,12 @@ RULE = ('case = one planted data set analysed (x3 orderings); distinct by '
 ASSUMPTIONS = ['ansatz A + Bx + Cx^2, x = (p - p_th) d^nu (property '
                'statement and fit_function)']
 REQUIRED_COUNTERS = ['datasets_analysed', 'orderings_compared',
-                     'exact_count_datasets', 'binomial_datasets']
+                     'exact_count_datasets', 'binomial_datasets',
+                     'datasets_with_out_of_codespace_trials',
+                     'datasets_with_A_above_half']
 SHARD_TIMEOUT = {'quick': 900, 'thorough': 3600}
 
-BOX = {'p_th': (0.03, 0.3), 'nu': (0.7, 1.6), 'A': (0.15, 0.5),
+BOX = {'p_th': (0.03, 0.3), 'nu': (0.7, 1.6), 'A': (0.15, 0.7),
        'B': (0.5, 2.5), 'C_over_B': (0.0, 1.0)}
 # frozen after calibration on the unchanged tree (see DESIGN.md, C16)
 TOL_EXACT = 0.05        # fraction of the half-window, exact counts
@@ -100,13 +102,19 @@ def draw(rng):
     raise RuntimeError('could not draw a well-conditioned data set')
 
 
-def record(L, p, n_trials, n_fail, rng):
+def record(L, p, n_trials, n_fail, rng, out_of_codespace=0.0):
     k = 2
     ee = np.zeros((n_trials, 2 * k), dtype=int)
     fail_idx = rng.choice(n_trials, size=n_fail, replace=False)
     ee[fail_idx, int(rng.integers(0, 2 * k))] = 1
     succ = np.ones(n_trials, dtype=bool)
     succ[fail_idx] = False
+    # a share of the failed trials did not return to the code space (as
+    # with BP-OSD / sweep decoders); the share depends on the distance
+    cs = np.ones(n_trials, dtype=bool)
+    if out_of_codespace > 0 and n_fail:
+        share = min(0.9, out_of_codespace * (1 + 0.25 * (L % 5)))
+        cs[fail_idx[:int(share * n_fail)]] = False
     return {'inputs': {
         'code': {'name': 'Toric2DCode',
                  'parameters': {'L_x': L, 'L_y': L, 'L_z': None},
@@ -120,10 +128,10 @@ def record(L, p, n_trials, n_fail, rng):
         'results': {'n_runs': n_trials, 'wall_time': 1.0,
                     'effective_error': ee.tolist(),
                     'success': succ.tolist(),
-                    'codespace': [True] * n_trials}}
+                    'codespace': cs.tolist()}}
 
 
-def write_dataset(rng, ds, root, mode):
+def write_dataset(rng, ds, root, mode, ooc=0.0):
     N = N_EXACT if mode == 'exact' else N_BINOM
     recs = []
     for L in ds['ds']:
@@ -149,7 +157,7 @@ def write_dataset(rng, ds, root, mode):
             if not fl:
                 continue
             data = [record(L, p, n, nf, np.random.default_rng(
-                [int(L), int(round(p * 1e6))])) for L, p, n, nf in fl]
+                [int(L), int(round(p * 1e6))]), ooc) for L, p, n, nf in fl]
             name = os.path.join(d, f'{chr(122 - fi)}{fi}.json.gz')
             with gzip.open(name, 'wb', compresslevel=1) as f:
                 f.write(json.dumps(data).encode())
@@ -183,7 +191,13 @@ def run_block(task, out):
                 'half_window': round(ds['w'], 6)}
         mech = f'thresholds/{mode}'
         try:
-            ords = write_dataset(rng, ds, root, mode)
+            ooc = float(rng.choice([0.0, 0.0, 0.3, 0.6]))
+            desc['out_of_codespace_share'] = ooc
+            if ooc:
+                out.count('datasets_with_out_of_codespace_trials')
+            if A > 0.5:
+                out.count('datasets_with_A_above_half')
+            ords = write_dataset(rng, ds, root, mode, ooc)
             rows = []
             for o in ords:
                 try:
